@@ -478,6 +478,51 @@ def stop_phase(ctx):
             ctx.notes.append("stop phase (%s) inconclusive in 3 attempts (client could not keep inside the I/O limits on this machine)" % mode)
 
 
+FINDING_KEY_STOPKILL = "F-C12-stop-kill: munged --stop escalates to SIGKILL after MUNGE_SIGNAL_WAIT_MSECS although the drain of accepted requests may legitimately take longer"
+
+
+def long_drain_stop(ctx):
+    """Known finding (thorough tier): the drain after a stop takes as long as the accepted requests ahead need (each may hold a
+    worker for the I/O limit), which is unbounded in the queue length, while `munged --stop` waits a fixed 5 s before SIGKILL.
+    One worker thread, three idle connections ahead of a valid request, then `munged --stop`."""
+    import rig, socket, subprocess, threading
+    exe, err = rig.build_daemon(ctx, name="munged-stop2", san=None)
+    if exe is None:
+        return
+    d = rig.Daemon(ctx, exe, tag="stopq", nthreads=1)
+    if not d.start():
+        return
+    idle = []
+    for _ in range(3):
+        s = socket.socket(socket.AF_UNIX, socket.SOCK_STREAM); s.connect(d.sock); idle.append(s)
+    time.sleep(0.2)
+    body = rig.enc_req_body(data=b"accepted before the stop")
+    q = socket.socket(socket.AF_UNIX, socket.SOCK_STREAM); q.connect(d.sock)
+    q.sendall(rig.hdr(rig.T_ENC_REQ, 0, len(body)) + body)
+    time.sleep(0.2)
+    reaper = threading.Thread(target=d.p.wait, daemon=True); reaper.start()
+    stop = subprocess.Popen([exe, "--stop", "-S", d.sock], stdout=subprocess.PIPE, stderr=subprocess.STDOUT, text=True)
+    q.settimeout(15)
+    try:
+        rep = q.recv(65536)
+    except OSError:
+        rep = b""
+    try:
+        stop.communicate(timeout=30)
+    except subprocess.TimeoutExpired:
+        stop.kill()
+    reaper.join(30)
+    rc = d.p.returncode
+    for s in idle + [q]:
+        s.close()
+    d.stop()
+    ctx.count(("stop-long-drain",))
+    if rc == -9 and len(rep) < 11:
+        ctx.violation("`munged --stop` killed the daemon (SIGKILL) while it was draining: a request accepted before the stop, queued behind "
+                      "three idle connections on a one-thread daemon (each holds the worker for the 2 s I/O limit), got no reply",
+                      {"finding_key": FINDING_KEY_STOPKILL, "daemon_exit": rc})
+
+
 def rude_phase(ctx):
     """'each such client receives its full reply' for every interleaving of acceptor and workers: with clients around that break
     their own connections (the daemon's send fails and the connection is torn down while the acceptor hands out descriptors)"""
@@ -506,6 +551,8 @@ def run(ctx):
     if not ctx.replay:
         stop_phase(ctx)
         rude_phase(ctx)
+        if ctx.thorough:
+            long_drain_stop(ctx)
 
 
 def _run_own(ctx):
